@@ -173,6 +173,17 @@ func c15Payload(c *cx) {
 		c.r.Check(id, f, "receive buffer filled with completely decoded data", "S: the bytes of a packet reach the receive buffer only after the whole packet was decoded", cl.Pos(), !streaming, "the buffer is filled through a streaming base64 decoder: the bytes that decoded before a corruption are delivered although the packet is refused")
 		c.dom(id, f, cl, "write into the receive buffer", []string{"commaok(p0.streams[p2.SID])", "eq(*.seq,p2.Seq)"})
 		c.domAny(id, f, cl, "write into the receive buffer [size test]", []string{"or(!lt(0,*.maxBufSize) | !lt(*.maxBufSize,*))"})
+		// ... and the size that was tested is the size that is written (an upper
+		// bound such as DecodedLen over-counts padded groups and refuses a packet
+		// that fits exactly)
+		if len(cl.Args) == 1 {
+			wpt, _ := g.Where(cl)
+			a := f.Norm(cl.Args[0], &wpt)
+			c.domAny(id, f, cl, "write into the receive buffer [tested size is the written size]", []string{
+				"or(!lt(0,*.maxBufSize) | !lt(*.maxBufSize,(bytes.Buffer.Len[*]() + builtin.len(" + a + "))))",
+				"or(!lt(0,*.maxBufSize) | !lt(*.maxBufSize,(builtin.len(" + a + ") + bytes.Buffer.Len[*]())))",
+			})
+		}
 		ls, _ := g.Locks(nil).AtNode(cl)
 		c.r.Check(id, f, "write into the receive buffer [lock]", "L: the receive buffer is written under readLock", cl.Pos(), ls.Has("ibb.Conn.readLock", true), "lockset "+ls.String())
 	}
